@@ -144,3 +144,94 @@ pub fn c16_history() {
         i += 1;
     }
 }
+
+/// what every record of the log on disk means to the (still running) node that wrote it
+fn meanings(node: &CNode) -> Vec<(String, String)> {
+    let before = read_log();
+    let mut meaning: Vec<(String, String)> = Vec::new();
+    let idk = node.dbs.id_keys_map.read().unwrap(); let idd = node.dbs.id_name_db_map.read().unwrap();
+    let mut j = 0;
+    while j < before.len() {
+        let (_t, key_id, db_id, op) = before[j];
+        let dbn = match idd.get(&db_id) { Some(s) => s.clone(), None => String::from("?") };
+        let kn = if op == 0 || op == 1 { match idk.get(&key_id) { Some(s) => s.clone(), None => String::from("?") } } else { String::new() };
+        meaning.push((dbn, kn));
+        j += 1;
+    }
+    meaning
+}
+fn check_decodes(node: &CNode, meaning: &Vec<(String, String)>, tag: &str) -> bool {
+    let kept = node.dbs.is_oplog_valid.load(vstd::sync::atomic::Ordering::Relaxed) && read_log().len() > 0;
+    if kept {
+        let log = read_log();
+        let idk = node.dbs.id_keys_map.read().unwrap(); let idd = node.dbs.id_name_db_map.read().unwrap();
+        let mut j = 0;
+        while j < log.len() {
+            let (_t, key_id, db_id, op) = log[j];
+            if j < meaning.len() {
+                vsym::check(&[tag, ".record-still-names-its-database"].concat(), match idd.get(&db_id) { Some(s) => *s == meaning[j].0, None => false });
+                if op == 0 || op == 1 { vsym::check(&[tag, ".record-still-names-its-key"].concat(), match idk.get(&key_id) { Some(s) => *s == meaning[j].1, None => false }); }
+            }
+            j += 1;
+        }
+    }
+    kept
+}
+/// kill at any instant: the node dies at a solver-chosen file-system operation inside the window {first write of a new key
+/// (key-id registration, flag update, op-log append); optional key-map + database snapshot; first write of another new key;
+/// optional clean shutdown}; it restarts, a further new key is written, it is killed and restarts again
+pub fn c16_crash() {
+    let mut node = boot("n1");
+    let (mut admin, mut arx) = admin_client(&node.dbs);
+    process_request("create-db da tok", &node.dbs, &mut admin);
+    { let (mut c, mut rx) = db_client(&node.dbs, "da"); process_request("set k0 v", &node.dbs, &mut c); process_request("unwatch-all", &node.dbs, &mut c); c.left(&node.dbs); }
+    process_request("snapshot false da", &node.dbs, &mut admin);
+    poll_once(&mut node.repl);
+    snapshot_all_pendding_dbs(&node.dbs);
+    if vsym::param("second-boot", 0) == 1 {
+        // the window opens on a node that was itself started from disk (valid log kept)
+        crate::db_ops::safe_shutdown(&node.dbs);
+        node = boot("n1");
+        let r = admin_client(&node.dbs); admin = r.0; arx = r.1;
+    }
+    let k = vsym::any_u64("crash-after-ops"); vsym::assume(k < 10_000);
+    unsafe { vstd::vfs::CRASH_AT = vstd::vfs::OPS + k; }
+    { let (mut c, mut rx) = db_client(&node.dbs, "da"); process_request("set k1 v", &node.dbs, &mut c); process_request("unwatch-all", &node.dbs, &mut c); c.left(&node.dbs); }
+    poll_once(&mut node.repl);
+    let with_snapshot = vsym::any_bool("snapshot-in-window");
+    if with_snapshot {
+        process_request("snapshot false da", &node.dbs, &mut admin);
+        poll_once(&mut node.repl);
+        snapshot_all_pendding_dbs(&node.dbs);
+    }
+    vsym::tag(if with_snapshot { "snapshot-in-window" } else { "no-snapshot-in-window" });
+    { let (mut c, mut rx) = db_client(&node.dbs, "da"); process_request("set k2 v", &node.dbs, &mut c); process_request("unwatch-all", &node.dbs, &mut c); c.left(&node.dbs); }
+    poll_once(&mut node.repl);
+    let clean = vsym::any_bool("clean-shutdown");
+    if clean { crate::db_ops::safe_shutdown(&node.dbs); }
+    let died = unsafe { vstd::vfs::OPS > vstd::vfs::CRASH_AT };
+    vsym::cover("crash.inside-window", died); vsym::cover("crash.none", !died);
+    vsym::tag(if died { "killed-inside-window" } else { "window-completed" });
+    unsafe { vstd::vfs::CRASH_AT = u64::MAX; }
+    let meaning = meanings(&node);
+    node = boot("n1");
+    let kept = check_decodes(&node, &meaning, "crash-decode");
+    vsym::cover("crash.log-kept", kept && died); vsym::cover("crash.log-discarded", !kept && died);
+    // life goes on: another new key, a kill between operations, a second restart
+    if node.dbs.has_db("da") {
+        { let (mut c, mut rx) = db_client(&node.dbs, "da"); process_request("set k3 v", &node.dbs, &mut c); process_request("unwatch-all", &node.dbs, &mut c); c.left(&node.dbs); }
+        poll_once(&mut node.repl);
+        {
+            let km = node.dbs.keys_map.read().unwrap();
+            let mut ids: Vec<u64> = km.values().map(|v| *v).collect(); ids.sort();
+            let mut j = 1; while j < ids.len() { vsym::check("crash-ids.keys-unique", ids[j] != ids[j - 1]); j += 1; }
+        }
+        // the records written by the first life keep their first-life meaning; the new ones get this life's
+        let mut meaning2 = meanings(&node);
+        if kept { let mut j = 0; while j < meaning.len() && j < meaning2.len() { meaning2[j] = (meaning[j].0.clone(), meaning[j].1.clone()); j += 1; } }
+        // (recorded finding C16-missing-flag-file-reads-as-valid: same check id and tag as in c16_history)
+        if !kept { vsym::tag("previous-boot-discarded-the-log-and-no-key-snapshot-since"); }
+        node = boot("n1");
+        check_decodes(&node, &meaning2, "decode");
+    }
+}
